@@ -252,7 +252,7 @@ class DnsRecordTxtValueDmarc(FieldsSemicolonSeparated):  # pylint: disable=too-m
     )
     subdomain_policy = attr.ib(
         default=None,
-        converter=DnsRecordTxtValueDmarcValueSubdomainPolicy.convert,
+        converter=attr.converters.optional(DnsRecordTxtValueDmarcValueSubdomainPolicy.convert),
         validator=attr.validators.optional(attr.validators.instance_of(DnsRecordTxtValueDmarcValueSubdomainPolicy))
     )
 
